@@ -172,11 +172,11 @@ type Block struct {
 	stateStatus           int8
 	stateStatusMutex      sync.RWMutex `json:"-" msgpack:"-"`
 	stateMutex            sync.RWMutex `json:"-" msgpack:"-"`
-	blockState            int8
+	blockState            int32        // accessed with sync/atomic (SetBlockState / GetBlockState)
 	isNotarized           bool
-	isFinalised           bool         // set this field when the block is finalised
-	ticketsMutex          sync.RWMutex `json:"-" msgpack:"-"`
-	verificationStatus    int
+	isFinalised           bool            // set this field when the block is finalised
+	ticketsMutex          sync.RWMutex    `json:"-" msgpack:"-"`
+	verificationStatus    int32           // accessed with sync/atomic (SetVerificationStatus / GetVerificationStatus)
 	RunningTxnCount       int64           `json:"running_txn_count"`
 	uniqueBlockExtensions map[string]bool `json:"-" msgpack:"-"`
 	uniqueBlockExtMutex   sync.RWMutex    `json:"-" msgpack:"-"`
@@ -562,12 +562,12 @@ func (b *Block) Clear() {
 
 /*SetBlockState - set the state of the block */
 func (b *Block) SetBlockState(blockState int8) {
-	b.blockState = blockState
+	atomic.StoreInt32(&b.blockState, int32(blockState))
 }
 
 /*GetBlockState - get the state of the block */
 func (b *Block) GetBlockState() int8 {
-	return b.blockState
+	return int8(atomic.LoadInt32(&b.blockState))
 }
 
 /*GetClients - get all the clients of this block */
@@ -673,12 +673,12 @@ func (b *Block) IsBlockFinalised() bool {
 
 /*SetVerificationStatus - set the verification status of the block by this node */
 func (b *Block) SetVerificationStatus(status int) {
-	b.verificationStatus = status
+	atomic.StoreInt32(&b.verificationStatus, int32(status))
 }
 
 /*GetVerificationStatus - get the verification status of the block */
 func (b *Block) GetVerificationStatus() int {
-	return b.verificationStatus
+	return int(atomic.LoadInt32(&b.verificationStatus))
 }
 
 /*UnknownTickets - compute the list of unknown tickets from a given set of tickets */
@@ -780,9 +780,9 @@ func (b *Block) Clone() *Block {
 		PrevBlock:           b.PrevBlock,
 		RunningTxnCount:     b.RunningTxnCount,
 		stateStatus:         b.GetStateStatus(),
-		blockState:          b.blockState,
+		blockState:          int32(b.GetBlockState()),
 		isNotarized:         isNotarized,
-		verificationStatus:  b.verificationStatus,
+		verificationStatus:  int32(b.GetVerificationStatus()),
 		StateChangesCount:   b.StateChangesCount,
 	}
 	if b.MagicBlock != nil {
